@@ -2,9 +2,11 @@
 
 package ratelimit
 
-// C16 (limiter store part): LimiterStore is a Go map under one RWMutex, so map
-// behaviour comes from the runtime; what is checked here (Go-side oracle only,
-// no Coq model) is the bound and the identity of limiters: a key keeps its
+// C16 (limiter store part): LimiterStore is a Go map under one RWMutex.  Every
+// history is replayed on the Coq model (Limiter.v: the stamp each call stored and
+// the key that vanished are inputs, the model says whether evictOne may pick it)
+// and judged by a clock-free reference map; Go-side as well: the bound and the
+// identity of limiters: a key keeps its
 // limiter while it is stored, distinct keys get distinct limiters, and the
 // store never holds more than max(maxSize, 1) limiters — sequentially and at
 // quiescence after concurrent Gets.
@@ -14,7 +16,9 @@ import (
 	"fmt"
 	"math/rand"
 	"os"
+	"runtime"
 	"strconv"
+	"strings"
 	"sync"
 	"testing"
 	"time"
@@ -36,6 +40,106 @@ func vC16LBound(maxSize int) int {
 	return maxSize
 }
 
+// one observed history on a fresh store: Get (and now and then Cleanup) calls; for the
+// Coq model every call carries what the runtime decided (the stamp it stored, the key
+// that vanished) and what came back (identity of the limiter, Len)
+func vC16LHistory(r *rand.Rand, maxSize int, keyOf func(i int) uint64, nops int, name string) map[string]any {
+	s := NewLimiterStore(maxSize, 1+r.Intn(50))
+	base := time.Now().UnixNano()
+	ids := map[*limiter]uint64{}
+	var alive []*limiter // keeps every limiter reachable: no address is ever reused
+	shadow := map[uint64]bool{}
+	var steps []string
+	goFail := ""
+	evictions, hits := 0, 0
+	z := func(v int64) string {
+		if v < 0 {
+			return fmt.Sprintf("(%d)", v)
+		}
+		return fmt.Sprintf("%d", v)
+	}
+	for i := 0; i < nops && goFail == ""; i++ {
+		k := keyOf(i)
+		before, had := s.limiters[k]
+		lenBefore := len(s.limiters)
+		got := s.Get(k)
+		cur, ok := s.limiters[k]
+		switch {
+		case !ok || cur.limiter != got:
+			goFail = fmt.Sprintf("%s op %d: Get(%d) returned a limiter that is not the one stored under the key", name, i, k)
+		case had && (before != cur || len(s.limiters) != lenBefore):
+			goFail = fmt.Sprintf("%s op %d: Get(%d) on a stored key replaced its limiter or changed the store (%d -> %d)", name, i, k, lenBefore, len(s.limiters))
+		case len(s.limiters) > vC16LBound(maxSize):
+			goFail = fmt.Sprintf("%s op %d: %d limiters stored, maxSize %d", name, i, len(s.limiters), maxSize)
+		case s.Len() != len(s.limiters):
+			goFail = fmt.Sprintf("%s op %d: Len()=%d, %d stored", name, i, s.Len(), len(s.limiters))
+		}
+		if !ok {
+			break
+		}
+		if _, known := ids[got]; !known {
+			if had {
+				goFail = fmt.Sprintf("%s op %d: Get(%d) on a stored key handed out a new limiter", name, i, k)
+			}
+			ids[got] = uint64(len(ids) + 1)
+			alive = append(alive, got)
+		} else if !had && goFail == "" {
+			goFail = fmt.Sprintf("%s op %d: Get(%d) on a new key handed out the limiter of another key", name, i, k)
+		}
+		if had {
+			hits++
+		}
+		victim := "None"
+		shadow[k] = true
+		if len(shadow) != len(s.limiters) {
+			for sk := range shadow {
+				if _, still := s.limiters[sk]; !still {
+					victim = fmt.Sprintf("(Some %d%%N)", sk)
+					delete(shadow, sk)
+					evictions++
+					if sk == k && goFail == "" {
+						goFail = fmt.Sprintf("%s op %d: Get(%d) evicted the key it was storing", name, i, k)
+					}
+				}
+			}
+		}
+		steps = append(steps, fmt.Sprintf("(OGet %d %s %d %s, %d%%Z)", k, z(cur.lastSeen.Load()-base), ids[got], victim, s.Len()))
+		if r.Intn(25) == 0 && len(s.limiters) > 0 && goFail == "" {
+			// Cleanup: now and then with a cutoff in the middle of the stored stamps
+			older := time.Hour
+			if r.Intn(2) == 0 {
+				var stamps []int64
+				for _, tl := range s.limiters {
+					stamps = append(stamps, tl.lastSeen.Load())
+				}
+				older = time.Duration(time.Now().UnixNano() - stamps[r.Intn(len(stamps))])
+			}
+			lo := time.Now().UnixNano()
+			s.Cleanup(older)
+			hi := time.Now().UnixNano()
+			var gone []string
+			for sk := range shadow {
+				if _, still := s.limiters[sk]; !still {
+					gone = append(gone, fmt.Sprintf("%d", sk))
+					delete(shadow, sk)
+				}
+			}
+			if older == time.Hour && len(gone) > 0 {
+				goFail = fmt.Sprintf("%s op %d: Cleanup(1h) removed fresh limiters", name, i)
+			}
+			g := "[]"
+			if len(gone) > 0 {
+				g = "[" + strings.Join(gone, ";") + "]%N"
+			}
+			steps = append(steps, fmt.Sprintf("(OClean %s %s %s, %d%%Z)", z(lo-int64(older)-base), z(hi-int64(older)-base), g, s.Len()))
+		}
+	}
+	runtime.KeepAlive(alive)
+	return map[string]any{"k": "limiter", "coq": fmt.Sprintf("CaseLim %s [%s]", z(int64(maxSize)), strings.Join(steps, ";")),
+		"go_fail": goFail, "nontrivial": evictions > 0 && hits > 0,
+		"desc": map[string]any{"name": name, "maxSize": maxSize, "ops": nops, "evictions": evictions, "hits": hits, "final": s.Len()}}
+}
+
 func TestVerifC16Limiter(t *testing.T) {
 	p := os.Getenv("VERIF_OUT")
 	if p == "" {
@@ -53,60 +157,46 @@ func TestVerifC16Limiter(t *testing.T) {
 	seed := int64(vC16LEnvInt("VERIF_SEED", 1))
 	n := vC16LEnvInt("VERIF_N", 200)
 	r := rand.New(rand.NewSource(seed))
-	sizes := []int{-1, 0, 1, 2, 3, 7, 16, 100, 1001, 1100}
+	// fixed scripts first (corpus/C16/limiter_scripts.json: maxSize + key sequence)
+	if dir := os.Getenv("VERIF_CORPUS"); dir != "" {
+		if b, err := os.ReadFile(dir + "/limiter_scripts.json"); err == nil {
+			var scripts []struct {
+				Name    string   `json:"name"`
+				MaxSize int      `json:"maxSize"`
+				Keys    []uint64 `json:"keys"`
+			}
+			if json.Unmarshal(b, &scripts) != nil {
+				emit(map[string]any{"k": "corpus-limiter", "go_fail": "corpus file limiter_scripts.json does not parse", "nontrivial": false})
+			}
+			for _, sc := range scripts {
+				keys := sc.Keys
+				c := vC16LHistory(rand.New(rand.NewSource(1)), sc.MaxSize, func(i int) uint64 { return keys[i] }, len(keys), sc.Name)
+				c["k"] = "corpus-limiter"
+				emit(c)
+			}
+		}
+	}
+	sizes := []int{-1, 0, 1, 2, 3, 5, 7, 16, 40}
 	for c := 0; c < n; c++ {
 		maxSize := sizes[r.Intn(len(sizes))]
-		s := NewLimiterStore(maxSize, 1+r.Intn(50))
 		keys := 1 + r.Intn(3*vC16LBound(maxSize)+3)
-		if keys > 1500 {
-			keys = 1500
-		}
-		nops := 50 + r.Intn(200)
-		if maxSize > 1000 {
-			nops = 1300 + r.Intn(300) // reaches the "sample only the first entry" branch of evictOne
-		}
-		goFail := ""
-		evictions := 0
-		for i := 0; i < nops && goFail == ""; i++ {
-			k := uint64(r.Intn(keys))
-			if maxSize > 1000 {
-				k = uint64(i % keys)
+		nops := 30 + r.Intn(90)
+		emit(vC16LHistory(r, maxSize, func(int) uint64 { return uint64(r.Intn(keys)) }, nops, fmt.Sprintf("random-%d", c)))
+	}
+	// above the sampling threshold of evictOne (any entry may go): fill the store, then churn
+	big := 2
+	if os.Getenv("VERIF_TIER") == "thorough" {
+		big = 8
+	}
+	for c := 0; c < big; c++ {
+		maxSize := []int{1001, 1100, 1000, 1002}[c%4]
+		keys := maxSize + 40
+		emit(vC16LHistory(r, maxSize, func(i int) uint64 {
+			if i < maxSize {
+				return uint64(i)
 			}
-			before, had := s.limiters[k]
-			lenBefore := len(s.limiters)
-			got := s.Get(k)
-			cur, ok := s.limiters[k]
-			switch {
-			case !ok || cur.limiter != got:
-				goFail = fmt.Sprintf("op %d: Get(%d) returned a limiter that is not the one stored under the key", i, k)
-			case had && (before != cur || len(s.limiters) != lenBefore):
-				goFail = fmt.Sprintf("op %d: Get(%d) on a stored key replaced its limiter or changed the store (%d -> %d)", i, k, lenBefore, len(s.limiters))
-			case len(s.limiters) > vC16LBound(maxSize):
-				goFail = fmt.Sprintf("op %d: %d limiters stored, maxSize %d", i, len(s.limiters), maxSize)
-			case s.Len() != len(s.limiters):
-				goFail = fmt.Sprintf("op %d: Len()=%d, %d stored", i, s.Len(), len(s.limiters))
-			}
-			if !had && lenBefore >= vC16LBound(maxSize) && lenBefore > 0 {
-				evictions++
-			}
-			seen := map[*limiter]uint64{}
-			if i%16 == 0 {
-				for kk, tl := range s.limiters {
-					if o, dup := seen[tl.limiter]; dup && goFail == "" {
-						goFail = fmt.Sprintf("op %d: keys %d and %d share one limiter", i, o, kk)
-					}
-					seen[tl.limiter] = kk
-				}
-			}
-			if r.Intn(40) == 0 {
-				s.Cleanup(time.Hour) // nothing is that old: must remove nothing
-				if len(s.limiters) != lenBefore && had {
-					goFail = fmt.Sprintf("op %d: Cleanup(1h) removed fresh limiters", i)
-				}
-			}
-		}
-		emit(map[string]any{"k": "go-limiter", "go_fail": goFail, "nontrivial": evictions > 0,
-			"desc": map[string]any{"maxSize": maxSize, "keys": keys, "ops": nops, "evictions": evictions, "final": s.Len()}})
+			return uint64(r.Intn(keys))
+		}, maxSize+60+r.Intn(40), fmt.Sprintf("big-%d", c)))
 	}
 	// concurrent Gets: bound and identity at quiescence
 	for round := 0; round < 4; round++ {
